@@ -244,6 +244,120 @@ func GenCase(r *rng.R, p Profile) fw.Case {
 	return fw.Case{Input: sx.L(hooks, reqs, sx.I(r.Range(0, 2))).String(), Tags: tags}
 }
 
+// GenTeardownCase: a TEARDOWN from every state — half of the time from RUNNING, i.e. one that ends a run —
+// reached by a fixed legal path, with hooks where a teardown looks for them: 1..4 call and task hooks at
+// leave_<state> (critical or not, failing or not, several weights of both signs: the teardown handles them in
+// ONE pass and stops at the first weight with a critical failure), 0..3 call hooks at DESTROY / after_DESTROY
+// (several weights, the same weight at both now and then), sometimes a call started earlier that is still
+// pending (awaited at leave_<state>, i.e. collected by the teardown, or never), sometimes a probe at a run
+// moment. The teardown is forced or not, its two release rounds succeed or not; it is followed by 0..2 more
+// requests (a second teardown, a STOP/GO_ERROR of the run it may have failed to end, an API request).
+func GenTeardownCase(r *rng.R) fw.Case {
+	type hop struct{ ev, dst string }
+	paths := map[string][]hop{
+		"STANDBY":    {},
+		"DEPLOYED":   {{"DEPLOY", "DEPLOYED"}},
+		"CONFIGURED": {{"DEPLOY", "DEPLOYED"}, {"CONFIGURE", "CONFIGURED"}},
+		"RUNNING":    {{"DEPLOY", "DEPLOYED"}, {"CONFIGURE", "CONFIGURED"}, {"START_ACTIVITY", "RUNNING"}},
+	}
+	from := "RUNNING"
+	if r.P(1, 2) {
+		from = rng.Pick(r, []string{"STANDBY", "DEPLOYED", "CONFIGURED", "ERROR"})
+	}
+	var path []hop
+	if from == "ERROR" {
+		live := rng.Pick(r, []string{"STANDBY", "DEPLOYED", "CONFIGURED", "RUNNING"})
+		path = append(append([]hop{}, paths[live]...), hop{"GO_ERROR", "ERROR"})
+	} else {
+		path = paths[from]
+	}
+	weights := []int{-50, -1, 0, 0, 5, 100}
+	hooks := sx.L()
+	id := 0
+	outs := func(mode int) *sx.Node {
+		l := sx.L()
+		for j := 0; j < 4; j++ {
+			switch mode {
+			case 0:
+				l.Add(sx.B(true))
+			case 2:
+				l.Add(sx.B(r.P(1, 3)))
+			}
+		}
+		return l
+	}
+	add := func(kind string, crit bool, trig string, tw int, at string, aw int, o *sx.Node) {
+		hooks.Add(sx.L(sx.I(id), sx.A(kind), sx.B(crit), sx.A(trig), sx.I(tw), sx.A(at), sx.I(aw), o))
+		id++
+	}
+	leave := "leave_" + from
+	nCritFail := 0
+	for i, n := 0, r.Range(1, 4); i < n; i++ {
+		kind := "call"
+		if r.P(1, 3) {
+			kind = "task"
+		}
+		crit := r.Bool()
+		mode := r.N(3) // always fails / never fails / fails now and then
+		if mode == 0 && crit {
+			nCritFail++
+		}
+		w := rng.Pick(r, weights)
+		add(kind, crit, leave, w, leave, w, outs(mode))
+	}
+	for i, n := 0, r.N(4); i < n; i++ {
+		trig := rng.Pick(r, []string{"DESTROY", "after_DESTROY"})
+		w := rng.Pick(r, []int{-5, 0, 0, 7})
+		add("call", r.Bool(), trig, w, trig, w, outs(r.N(3)))
+	}
+	nFloat := 0
+	if len(path) > 0 && r.P(1, 3) {
+		// started on the way, still pending when the teardown begins
+		h := path[r.N(len(path))]
+		at, aw := leave, rng.Pick(r, weights)
+		if r.P(1, 3) {
+			at, aw = fmt.Sprintf("never_%d", r.N(3)), 0
+		}
+		mode := 1
+		if r.P(1, 2) {
+			mode = 0
+		}
+		add("call", r.Bool(), rng.Pick(r, []string{"before_" + h.ev, "enter_" + h.dst, "after_" + h.ev}), rng.Pick(r, weights), at, aw, outs(mode))
+		nFloat++
+	}
+	if r.P(1, 3) {
+		m := rng.Pick(r, []string{"before_START_ACTIVITY", "after_START_ACTIVITY", "enter_RUNNING", "before_GO_ERROR", "after_GO_ERROR", "enter_ERROR"})
+		w := rng.Pick(r, weights)
+		add("call", false, m, w, m, w, sx.L())
+	}
+	rng.Shuffle(r, hooks.List)
+	reqs := sx.L()
+	for _, h := range path {
+		reqs.Add(sx.L(sx.A("T"), sx.A(h.ev), sx.B(true), sx.B(false)))
+	}
+	force := r.P(5, 6)
+	rel1, rel2 := r.P(9, 10), r.P(9, 10)
+	reqs.Add(sx.L(sx.A("D"), sx.B(force), sx.B(rel1), sx.B(rel2)))
+	for i, n := 0, r.N(3); i < n; i++ {
+		switch r.N(3) {
+		case 0:
+			reqs.Add(sx.L(sx.A("D"), sx.B(true), sx.B(true), sx.B(true)))
+		case 1:
+			reqs.Add(sx.L(sx.A("T"), sx.A(rng.Pick(r, []string{"STOP_ACTIVITY", "GO_ERROR"})), sx.B(true), sx.B(false)))
+		case 2:
+			reqs.Add(sx.L(sx.A("C"), sx.A(rng.Pick(r, []string{"STOP_ACTIVITY", "CONFIGURE", "START_ACTIVITY"})), sx.B(true), sx.B(false)))
+		}
+	}
+	tags := []string{"teardown-class", "teardown", "teardown-from-" + from}
+	if nCritFail > 0 {
+		tags = append(tags, "critical-failures", "teardown-critical-leave-failure")
+	}
+	if nFloat > 0 {
+		tags = append(tags, "floating-await")
+	}
+	return fw.Case{Input: sx.L(hooks, reqs, sx.I(r.Range(0, 2))).String(), Tags: tags}
+}
+
 func pickW(r *rng.R, legal []string, pref string) string {
 	for _, l := range legal {
 		if l == pref && r.P(3, 4) {
